@@ -45,7 +45,8 @@ for r in reports:
     sig = "data-race " + " / ".join(names)
     sigs.setdefault(sig, []).append(r)
 status = 0
-os.makedirs(f"/verif/replays/{ID}", exist_ok=True)
+OUT = os.environ.get("VERIF_OUT") or "/verif"
+os.makedirs(f"{OUT}/replays/{ID}", exist_ok=True)
 unknown = 0
 for sig, rs in sorted(sigs.items()):
     if sig == "__elsewhere__": continue
@@ -53,7 +54,7 @@ for sig, rs in sorted(sigs.items()):
         print(f"KNOWN-FINDING: property={ID} {known[sig]} [{sig}] ({len(rs)} reports)")
         continue
     unknown += 1
-    p = f"/verif/replays/{ID}/race-{hashlib.sha256(sig.encode()).hexdigest()[:12]}.txt"
+    p = f"{OUT}/replays/{ID}/race-{hashlib.sha256(sig.encode()).hexdigest()[:12]}.txt"
     open(p, "w").write(rs[0])
     print(f'VIOLATION property={ID} replay={p} sig="{sig}" cases={len(rs)} :: the race detector reports an unsynchronised access on anchored state in the free-running pass')
     status = 1
@@ -63,7 +64,7 @@ if inconclusive:
 elif rc not in (0, 1, 66) and not reports:
     print(f"check {ID}: race pass ended abnormally rc={rc}, see {outlog}")
     status = max(status, 3)
-ev = f"/verif/evidence/{ID}.json"
+ev = f"{OUT}/evidence/{ID}.json"
 if os.path.exists(ev):
     e = json.load(open(ev))
     e["coverage"]["race_pass"] = {"free_running_runs": runs, "reports_total": len(reports), "reports_on_anchored_files": sum(len(v) for k, v in sigs.items() if k != "__elsewhere__"),
